@@ -164,14 +164,17 @@ type world struct {
 	claims   map[int]*claimInfo
 	idOfRef  map[blob.Ref]int
 	nextLoad bool
+	maxID    int
+	content  map[string]bool // what was delivered, by content: the same claim twice is the same blob
 }
 
 func newWorld() *world {
-	w := &world{claims: map[int]*claimInfo{}, idOfRef: map[blob.Ref]int{}, nextLoad: true}
+	w := &world{claims: map[int]*claimInfo{}, idOfRef: map[blob.Ref]int{}, nextLoad: true, content: map[string]bool{}}
 	w.ss, w.err = loadSigners()
 	if w.err != nil {
 		return w
 	}
+	index.SetVerboseCorpusLogging(false)
 	w.blobs, w.pubs = new(test.Fetcher), new(test.Fetcher)
 	for _, s := range w.ss {
 		w.pubs.AddBlob(s.pub)
@@ -348,7 +351,11 @@ func (w *world) exec(a []string) string {
 			return "bad-op"
 		}
 		p, s := int(a[2][0]-'0'), int(a[3][0]-'0')
-		if _, dup := w.claims[int(id)]; dup || !w.pn[p].Valid() {
+		if int(id) <= w.maxID || !w.pn[p].Valid() || attr == "" {
+			return "bad-op" // ids grow with arrival: a target always precedes its deleters
+		}
+		ckey := fmt.Sprintf("claim %d %d %s %q %q %d", p, s, a[4], attr, val, date)
+		if a[4] != "set" && a[4] != "add" && a[4] != "del" || w.content[ckey] {
 			return "bad-op"
 		}
 		var b *schema.Builder
@@ -363,7 +370,7 @@ func (w *world) exec(a []string) string {
 			return "bad-op"
 		}
 		b.SetClaimDate(time.Unix(int64(date), 0).UTC())
-		return w.addClaim(int(id), &claimInfo{pn: p, signer: s}, b, rk)
+		return w.addClaim(int(id), &claimInfo{pn: p, signer: s}, b, rk, ckey)
 
 	case "delete": // delete <id> <c<id>|p<p>> <s> <date> <rk>
 		if len(a) != 6 || len(a[2]) < 2 {
@@ -375,16 +382,20 @@ func (w *world) exec(a []string) string {
 		if !ok1 || !ok4 || !ok5 || date == 0 || (a[3] != "0" && a[3] != "1") {
 			return "bad-op"
 		}
-		if _, dup := w.claims[int(id)]; dup {
+		if int(id) <= w.maxID {
 			return "bad-op"
 		}
 		tgt, pn, ok := w.target(a[2])
 		if !ok {
 			return "bad-op"
 		}
+		ckey := fmt.Sprintf("delete %s %s %d", a[2], a[3], date)
+		if w.content[ckey] {
+			return "bad-op"
+		}
 		b := schema.NewDeleteClaim(tgt)
 		b.SetClaimDate(time.Unix(int64(date), 0).UTC())
-		return w.addClaim(int(id), &claimInfo{pn: pn, signer: int(a[3][0] - '0'), isDel: true}, b, rk)
+		return w.addClaim(int(id), &claimInfo{pn: pn, signer: int(a[3][0] - '0'), isDel: true}, b, rk, ckey)
 
 	case "attr": // attr <mode> <p> <attr> <T> <f>
 		if len(a) != 6 {
@@ -398,11 +409,14 @@ func (w *world) exec(a []string) string {
 			return "bad-op"
 		}
 		if a[1] == "idx" {
-			// pkg/index/location.go:75,158: Index.AppendClaims then claimsIntfAttrValue
+			// the composition of pkg/index/location.go permanodeLocation + permAttr.get:
+			// Index.AppendClaims, sort.Sort(camtypes.ClaimsByDate), claimsIntfAttrValue
+			// (the order of these calls in the source is a regenerated fact: Gen.C07)
 			cls, err := w.ixA.AppendClaims(ctxbg, nil, pn, keyID, "")
 			if err != nil {
 				return "err"
 			}
+			sort.Sort(camtypes.ClaimsByDate(cls))
 			return hk.Hex([]byte(index.VerifClaimsAttrValue(cls, attr, at, refs)))
 		}
 		c, ok := w.corpus(a[1])
@@ -558,7 +572,7 @@ func (w *world) target(s string) (ref blob.Ref, pn int, ok bool) {
 	return blob.Ref{}, 0, false
 }
 
-func (w *world) addClaim(id int, ci *claimInfo, b *schema.Builder, rk uint64) string {
+func (w *world) addClaim(id int, ci *claimInfo, b *schema.Builder, rk uint64, ckey string) string {
 	tb, err := signBlob(w.ss[ci.signer], w.pubs, b)
 	if err != nil {
 		return "err"
@@ -578,6 +592,8 @@ func (w *world) addClaim(id int, ci *claimInfo, b *schema.Builder, rk uint64) st
 	}
 	w.claims[id] = ci
 	w.idOfRef[ci.ref] = id
+	w.maxID = id
+	w.content[ckey] = true
 	return "ok"
 }
 
